@@ -141,6 +141,14 @@ def scenario_for(seed, index, tier):
         sc['racer'] = {'handler_sleep_us': rng.choice([0, 0, 2000, 100000]),
                        'retry_us': rng.choice([20, 100, 1000, 20000])}
         sc['sched']['granularity'] = 'line'
+    if index >= len(en) and not sc.get('racer') and \
+            state in ('login', 'play') and rng.random() < 0.1:
+        # another thread keeps the write lock busy most of the time (forced
+        # writes whose early outgoing listener is slow and drops the packet)
+        # while the fault happens and is handled: the dying thread's
+        # teardown has to wait its turn, not be skipped
+        sc['holder'] = {'hold_us': rng.choice([20000, 200000, 1500000]),
+                        'times': rng.choice([3, 8])}
     build_server(sc)
     return sc
 
@@ -385,6 +393,7 @@ def execute(scenario, tape):
                                    handle_status=False, handle_ping=False)
             else:
                 st['call'] = w.api('connect', conn.connect)
+            st['connect_returned'] = True
             st['quiet1'] = w.wait_until(quiet, 60000000)
             st['first_session_over'] = True
             st['exception_attr'] = getattr(conn, 'exception', None)
@@ -408,6 +417,28 @@ def execute(scenario, tape):
                 w.sleep(scenario['racer']['retry_us'])
         if scenario.get('racer'):
             w.sim.spawn(racer, 'user1')
+        markers = []
+
+        def on_marker(p):
+            if any(p is m for m in markers):
+                w.sleep(scenario['holder']['hold_us'])
+                from minecraft.exceptions import IgnorePacket
+                raise IgnorePacket
+
+        def lock_holder():
+            w.wait_until(lambda: st.get('connect_returned') or
+                         st.get('first_session_over'), 30000000)
+            for _ in range(scenario['holder']['times']):
+                if st.get('first_session_over'):
+                    break
+                m = sb.play.KeepAlivePacket(keep_alive_id=0)
+                markers.append(m)
+                w.api('held-write', conn.write_packet, m, force=True)
+                w.sleep(50)
+        if scenario.get('holder'):
+            conn.register_packet_listener(on_marker, Packet, early=True,
+                                          outgoing=True)
+            w.sim.spawn(lock_holder, 'user2')
 
     w.run(build)
     res = common.result_from_world(w)
